@@ -72,7 +72,8 @@ Section C08.
     mkspec (ps_fam sp) (ps_lo sp) (ps_hi sp) (ps_par sp) m.
 
   (* operands of assertions: priors, constants, arithmetic (attribute names are not observable there) *)
-  Inductive expr := EPrior (pid : nat) (sp : pspec) | EConst (v : V) | EBin (o : binop) (l r : expr).
+  Inductive expr := EPrior (pid : nat) (sp : pspec) | EConst (v : V) | EBin (o : binop) (l r : expr)
+                  | EUn (o : unop) (e : expr).          (* -x, abs(x) (x - y is written x + (-y)) *)
   Inductive assertion :=
   | ALt (l g : expr)              (* GreaterThanLessThanAssertion(lower, greater) *)
   | ALe (l g : expr)              (* GreaterThanLessThanEqualAssertion *)
@@ -83,6 +84,8 @@ Section C08.
   | KColl                                          (* af.Collection *)
   | KTuple (idx : list nat)                        (* TuplePrior: numeric position of every member *)
   | KBin (o : binop)                               (* CompoundPrior: the two children are keyed by its attribute names *)
+  | KUn (o : unop)                                 (* ModifiedPrior (-x, abs(x)): ONE child, keyed by `_prior_name`, which all
+                                                      three storage forms write and read back (dict "name", db child name) *)
   | KInst (cls : string) (ctor : list string).    (* a plain instance of cls (no Model around it) *)
 
   Inductive snode :=
@@ -118,6 +121,10 @@ Section C08.
                     | [(ln, l); (rn, r)] => NBin o ln rn l r
                     | _ => NColl []
                     end
+        | KUn o => match ech false with
+                   | [(nm, c)] => NUn o nm c
+                   | _ => NColl []
+                   end
         end
     end.
 
@@ -138,6 +145,7 @@ Section C08.
       | EConst v => Ok (e, st)
       | EBin o l r =>
           bind (texpr l st) (fun a => bind (texpr r (snd a)) (fun b => Ok (EBin o (fst a) (fst b), snd b)))
+      | EUn o x => bind (texpr x st) (fun a => Ok (EUn o (fst a), snd a))
       end.
 
     Fixpoint tassert (a : assertion) (st : S) : outcome (assertion * S) :=
@@ -294,7 +302,8 @@ Section C08.
   Definition sp_nums (p : nat) (sp : pspec) : list nat :=
     p :: match ps_mid sp with Some m => [m] | None => [] end.
   Fixpoint expr_nums (e : expr) : list nat :=
-    match e with EPrior p sp => sp_nums p sp | EConst _ => [] | EBin _ l r => expr_nums l ++ expr_nums r end.
+    match e with EPrior p sp => sp_nums p sp | EConst _ => [] | EBin _ l r => expr_nums l ++ expr_nums r
+               | EUn _ x => expr_nums x end.
   Fixpoint assert_nums (a : assertion) : list nat :=
     match a with ALt l g | ALe l g => expr_nums l ++ expr_nums g | AAnd a b => assert_nums a ++ assert_nums b end.
   Fixpoint nums (n : snode) : list nat :=
@@ -357,7 +366,7 @@ Section C08.
   Definition canon (n : snode) : snode := rename_all (fun x => index_of x (nodup_first [] (nums n))) n.
 End C08.
 
-Arguments mkspec {V}. Arguments EPrior {V}. Arguments EConst {V}. Arguments EBin {V}.
+Arguments mkspec {V}. Arguments EPrior {V}. Arguments EConst {V}. Arguments EBin {V}. Arguments EUn {V}.
 Arguments ALt {V}. Arguments ALe {V}. Arguments AAnd {V}.
 Arguments SPrior {V}. Arguments SConst {V}. Arguments SDict {V}. Arguments SNode {V}.
 
@@ -374,7 +383,9 @@ Definition family_eqb (a b : family) : bool :=
 Definition err_eqb (a b : err) : bool :=
   match a, b with ETypeError, ETypeError | EAttributeError, EAttributeError => true | _, _ => false end.
 Definition binop_eqb (a b : binop) : bool :=
-  match a, b with OAdd, OAdd | OSub, OSub | OMul, OMul | ODiv, ODiv => true | _, _ => false end.
+  match a, b with OAdd, OAdd | OSub, OSub | OMul, OMul | ODiv, ODiv | OFloorDiv, OFloorDiv | OMod, OMod => true | _, _ => false end.
+Definition unop_eqb (a b : unop) : bool :=
+  match a, b with UNeg, UNeg | UAbs, UAbs => true | _, _ => false end.
 Definition onat_eqb (a b : option nat) : bool :=
   match a, b with Some x, Some y => Nat.eqb x y | None, None => true | _, _ => false end.
 
@@ -388,6 +399,7 @@ Fixpoint expr_eqb (a b : expr float) : bool :=
   | EPrior p s, EPrior q t => Nat.eqb p q && spec_eqb s t
   | EConst x, EConst y => fbits_eqb x y
   | EBin o l r, EBin o' l' r' => binop_eqb o o' && expr_eqb l l' && expr_eqb r r'
+  | EUn o x, EUn o' x' => unop_eqb o o' && expr_eqb x x'
   | _, _ => false
   end.
 
@@ -404,6 +416,7 @@ Definition kind_eqb (a b : kind) : bool :=
   | KColl, KColl => true
   | KTuple i, KTuple j => list_eqb Nat.eqb i j
   | KBin o, KBin o' => binop_eqb o o'
+  | KUn o, KUn o' => unop_eqb o o'
   | _, _ => false
   end.
 
@@ -441,7 +454,7 @@ Definition view_ok (o : obs) : bool :=
   list_eqb path_eqb (paths float n) (o_paths o)
   && Nat.eqb (prior_count float n) (o_count o)
   && list_eqb Nat.eqb (ordered_ids float n) (o_ids o)
-  && match o_inst o with Some i => ival_eqb (inst_from_paths float fbin n (o_pv o)) i | None => true end.
+  && match o_inst o with Some i => ival_eqb (inst_from_paths float fbin funop n (o_pv o)) i | None => true end.
 
 Definition frt := rt float ffalsy.
 
